@@ -200,15 +200,10 @@ def switch1D (subs : List PL) (w : PL) : PL := switch1L w.st subs w.vals
 def slideSeg (its : List PL) (wrap : Bool) (pos : Int) (rest : PL) : Nat → Nat → PL
   | 0, _ => rest
   | n + 1, j =>
-    if wrap then
-      match its[(scModInt (pos + j) its.length).toNat]? with
-      | some x => x.append (slideSeg its wrap pos rest n (j + 1))
-      | none => ⟨[], .err⟩
-    else if pos + j < its.length then
-      match pyGet? its (pos + j) with
-      | some x => x.append (slideSeg its wrap pos rest n (j + 1))
-      | none => ⟨[], .err⟩
-    else ⟨[], .done⟩
+    match slideLook its wrap pos j with
+    | .item x => x.append (slideSeg its wrap pos rest n (j + 1))
+    | .raise => ⟨[], .err⟩
+    | .stopAll => ⟨[], .done⟩
 
 /-- Pslide: `r` segments; segment lengths from `ls`, start moved by the steps `ss`. -/
 def slideL (its : List PL) (wrap : Bool) (sl sst : Status) : Rep → Int → List Val → List Val → PL
